@@ -26,8 +26,8 @@ func registerHarnessAPI(e *Engine) {
 	P := mainPath + "."
 	in[P+"verifString"] = func(m *Machine, fr *frame, a []Value) Value {
 		name := constArg(a[0], "verifString")
-		if name == "replacement" {
-			m.prefs[TVar(name, SStr)] = "<REPL>"
+		if pv, ok := map[string]string{"replacement": "<REPL>", "privateKey": "Pr1v4teK3y-9f3a", "publicKey": "pubK3y-77", "projectId": "5f2a9c0e1b", "clusterName": "Cluster0"}[name]; ok {
+			m.prefs[TVar(name, SStr)] = pv
 		}
 		v := mkStrT(TVar(name, SStr))
 		m.recordInput(name, v)
